@@ -264,6 +264,24 @@ def make_torn(rng, tier):
                 ops.append({'k': rng.choice(['rmcache', 'rmver']), 'c': c})
             else:
                 ops.append({'k': 'clearcache', 'p': rng.randrange(cfg['nproc']), 'c': c, 'mem': rng.random() < 0.7, 't': []})
+        elif r < 0.885 and 'age' in enabled and cfg['nproc'] > 1 and len(cfg['files']) > 1:
+            # a due clean-up over several aged entries while the other process uses one of them:
+            # both files cached, everything (and the lock) aged, then p0 saves file a (which starts the
+            # clean-up) and p1 loads or re-saves file b at the same time
+            a, b = rng.sample(range(len(cfg['files'])), 2)
+            g = rng.randrange(len(cfg['grammars']))
+            base = {'k': 'parse', 'g': g, 'c': c, 'm': 'cache'}
+            ops.append(dict(base, p=0, f=a, t=[]))
+            ops.append(dict(base, p=0, f=b, t=[]))
+            ops.append({'k': 'age', 'c': c, 'sel': None, 'days': rng.choice([30.5, 31, 45, 400]),
+                        'lock': rng.choice([1.01, 2, 40])})
+            ops.extend(_edit_ops(rng, cfg, state, f=a)[-1:])
+            ops[-1].update({'how': 'atomic', 'mt': None, 'dt': 5.0, 'noskew': True})
+            if rng.random() < 0.6:
+                ops.extend(_edit_ops(rng, cfg, state, f=b)[-1:])
+                ops[-1].update({'how': 'atomic', 'mt': None, 'dt': 1.0, 'noskew': True})
+            ops.append(dict(base, p=0, f=a, t=[]))
+            ops.append(dict(base, p=1, f=b, t=[]))
         elif r < 0.92 and 'age' in enabled:
             ops.append({'k': 'age', 'c': c, 'sel': rng.choice([None, rng.randrange(8)]),
                         'days': rng.choice([1, 29, 29.99, 30.01, 31, 400]),
